@@ -2,7 +2,7 @@
 from vlib import Rng
 import sockgen as G
 
-RULE = ("also: chains of 17..30 nested handlers; " "also: several simultaneously open connections to one server with interleaved operations (family srvi); " "family srv: the real ServerPrivate::process wiring + Handler trees (depth <= 3, <= 3 redirects and <= 3 sub-handlers per node, "
+RULE = ("also: chains of 17..30 nested handlers; " "also: several simultaneously open connections to one server with interleaved operations, requests arriving while a middleware is still judging another one (family srvi); " "family srv: the real ServerPrivate::process wiring + Handler trees (depth <= 3, <= 3 redirects and <= 3 sub-handlers per node, "
         "0-3 accepting/refusing instrumented middleware per node) over a pattern vocabulary (literals, classes, captures, wildcards; "
         "sub-handler patterns start-anchored) x request paths over a segment alphabet incl. percent-encoded reserved/control characters; "
         "QRegExp answers tabulated by calling QRegExp directly; non-trivial = distinct case")
@@ -136,6 +136,10 @@ def build(tier, seed, ctx, refuse_ok, n):
                         b = rng.below(a + 1)
                         sched[a], sched[b] = sched[b], sched[a]
                 yield ("srvi", [sched, [tree, conns2, G.env_for(ver, utab, [raw]) + [rxtab], [6, metas]]], "interleaved-connections")
+                # round robin: every connection is accepted, every head half-read, then the second halves arrive one after the other -
+                # while a middleware is judging one request, the next one arrives (the harness lets it in, nested)
+                rr = [i for _ in range(4) for i in range(len(conns2))]
+                yield ("srvi", [rr, [tree, conns2, G.env_for(ver, utab, [raw]) + [rxtab], [6, metas]]], "interleaved-round-robin")
 
 
 def cases(tier, seed, ctx=None):
